@@ -1,6 +1,6 @@
 (* Property C20 — shutdown always completes; follower and background worker never deadlock.
    Only statements here; each is closed by [exact] of a lemma proved in Sched/HandshakeProofs.v
-   and followed by Print Assumptions.
+   (task-queue capacity: Sched/HandshakeQueueProofs.v) and followed by Print Assumptions.
    Model: Sched/Handshake.v — handler H, worker K, stopper S, one API client, the announcing node,
    as a labelled transition system over program counters at every channel operation
    (masswallet/ntfnshandler.go: handle, worker, suspend, resume, asyncImport, asyncRemove, Stop;
@@ -17,7 +17,7 @@
    queueBlock). *)
 From Coq Require Import List Arith Bool.
 Import ListNotations.
-Require Import MW.Sched.Handshake MW.Sched.HandshakeProofs.
+Require Import MW.Sched.Handshake MW.Sched.HandshakeProofs MW.Sched.HandshakeQueueProofs.
 
 (* every step strictly decreases [rank]: there is no livelock, and a run from s has at most
    rank s steps — whatever the scheduler and the `select` choices do *)
@@ -67,6 +67,75 @@ Theorem C20_task_queue_config_is_the_code :
   BinInt.Z.le MW.Gen.Consts.TaskQueueCap0 MW.Gen.Consts.TaskQueueCap10.
 Proof. vm_compute. repeat split; try (intro; discriminate); repeat constructor. Qed.
 Print Assumptions C20_task_queue_config_is_the_code.
+
+(* ... and so is the rule that sizes the queue at start-up: [start_cap n] is what NewWalletTaskChan(n) allocates *)
+Theorem C20_start_cap_is_the_code :
+  (BinInt.Z.of_nat (start_cap 0) = MW.Gen.Consts.TaskQueueCap0) /\
+  (BinInt.Z.of_nat (start_cap 10) = MW.Gen.Consts.TaskQueueCap10).
+Proof. vm_compute. split; reflexivity. Qed.
+Print Assumptions C20_start_cap_is_the_code.
+
+(* START-UP (initTaskChan): Start() sizes the queue after the number [nw] of wallet status rows
+   (start_cap nw = max (MaxWaitingTaskNum+1) nw) and re-queues the k = length rst unfinished imports / removals
+   among them by NON-BLOCKING pushes ([start_state] spells these pushes out).  For every k and every nw >= k:
+   none of these pushes is dropped (the queue holds exactly rst), and no later push is — neither the API's nor
+   the worker's re-queue of the task it is running — whatever the environment does afterwards. *)
+Theorem C20_startup_queue_never_drops : forall c nw blocks reqs rst stop s,
+  nilfix c = true -> 1 <= qcap c -> cap c = start_cap nw -> length rst <= nw ->
+  steps c (start_state c blocks reqs rst stop) s ->
+  tasks (start_state c blocks reqs rst stop) = rst /\ n_drop (gh s) = 0.
+Proof. exact startup_never_dropped. Qed.
+Print Assumptions C20_startup_queue_never_drops.
+
+(* ... and while the wallet runs (no Stop) every maximal run from there ends with both loops parked, every
+   announced tip processed, every accepted task finished — the k left over from the last run included *)
+Theorem C20_startup_tasks_finish : forall c nw blocks reqs rst s,
+  nilfix c = true -> 1 <= qcap c -> cap c = start_cap nw -> length rst <= nw ->
+  steps c (start_state c blocks reqs rst false) s -> stuck c s ->
+  all_done s /\ length rst <= n_fin (gh s).
+Proof. exact startup_tasks_finish. Qed.
+Print Assumptions C20_startup_tasks_finish.
+
+(* THE CONVERSE (the seeded configuration: a queue of exactly MaxWaitingTaskNum slots, any qcap, either Stop
+   protocol).  Environment: no Stop, no block, the API requests an import of two batches and then three removals
+   of other wallets.  There is a run on which the import is accepted and taken by the worker, the three removals
+   are accepted while its first batch runs (the waiting queue is then full), and the worker's re-queue of the
+   import is dropped (s1); the run goes on to a state s2 in which nothing can move any more, both loops are
+   parked, the queues are empty, every tip is processed, nothing was aborted — and an accepted task has not
+   finished and never will. *)
+Theorem C20_requeue_dropped_refuted : forall c,
+  cap c = busy_threshold -> nilfix c = true ->
+  exists s1 s2,
+    let s0 := init_state true 0 [ {| t_kind := Imp; t_more := 1 |}; {| t_kind := Rem; t_more := 0 |};
+                                  {| t_kind := Rem; t_more := 0 |}; {| t_kind := Rem; t_more := 0 |} ] [] false in
+    initial c s0 /\ no_stop s0 /\
+    steps c s0 s1 /\ 0 < n_drop (gh s1) /\
+    steps c s1 s2 /\ stuck c s2 /\ idle s2 /\ n_proc (gh s2) = n_ann (gh s2) /\
+    n_abort (gh s2) = 0 /\ n_fin (gh s2) < n_acc (gh s2).
+Proof. exact requeue_dropped_refuted. Qed.
+Print Assumptions C20_requeue_dropped_refuted.
+
+(* the same after a restart: the two-batch import is the one task left over from the last run (a start-up rule
+   max MaxWaitingTaskNum k gives MaxWaitingTaskNum slots for k = 1), three removals are requested *)
+Theorem C20_requeue_dropped_restart_refuted : forall c,
+  cap c = busy_threshold -> nilfix c = true ->
+  exists s1 s2,
+    let s0 := init_state true 0 [ {| t_kind := Rem; t_more := 0 |}; {| t_kind := Rem; t_more := 0 |};
+                                  {| t_kind := Rem; t_more := 0 |} ] [ {| t_kind := Imp; t_more := 1 |} ] false in
+    initial c s0 /\ no_stop s0 /\
+    steps c s0 s1 /\ 0 < n_drop (gh s1) /\
+    steps c s1 s2 /\ stuck c s2 /\ idle s2 /\ n_proc (gh s2) = n_ann (gh s2) /\
+    n_abort (gh s2) = 0 /\ n_fin (gh s2) < n_acc (gh s2).
+Proof. exact requeue_dropped_restart_refuted. Qed.
+Print Assumptions C20_requeue_dropped_restart_refuted.
+
+(* the capacity condition of C20_requeue_never_dropped is exact: no reachable state has dropped a task
+   if and only if the queue has at least MaxWaitingTaskNum + 1 slots *)
+Theorem C20_never_dropped_iff : forall c,
+  nilfix c = true -> 1 <= qcap c ->
+  ((forall s, reachable c s -> n_drop (gh s) = 0) <-> busy_threshold + 1 <= cap c).
+Proof. exact never_dropped_iff. Qed.
+Print Assumptions C20_never_dropped_iff.
 
 (* what the hand-shake is for: block processing and a background update never overlap *)
 Theorem C20_handshake_exclusion : forall c s,
@@ -149,3 +218,28 @@ Proof.
   - left. reflexivity.
   - vm_compute. reflexivity.
 Qed.
+
+(* the dropped re-queue as a closed run of the configuration with MaxWaitingTaskNum slots: four tasks accepted,
+   three finished, one dropped, nothing left to run *)
+Example C20_ex_tight_queue_drops :
+  match exec_lab cfg_tight (pressure_run ++ drain_run) (init_state true 0 pressure_reqs [] false) with
+  | Some s => (n_acc (gh s), n_fin (gh s), n_drop (gh s), tasks s, kpc s, step cfg_tight s) = (4, 3, 1, [], Ksel, [])
+  | None => False
+  end.
+Proof. vm_compute. reflexivity. Qed.
+
+(* the same labels in the repaired configuration (MaxWaitingTaskNum + 1 slots): nothing dropped, the import
+   is back in the queue behind the removals *)
+Example C20_ex_same_run_repaired :
+  match exec_lab cfg_repaired (pressure_run ++ drain_run) (init_state true 0 pressure_reqs [] false) with
+  | Some s => (n_acc (gh s), n_fin (gh s), n_drop (gh s), tasks s) = (4, 3, 0, [ {| t_kind := Imp; t_more := 0 |} ])
+  | None => False
+  end.
+Proof. vm_compute. reflexivity. Qed.
+
+(* start-up with six unfinished tasks among seven wallets: seven slots, all six queued *)
+Example C20_ex_startup_six :
+  let rst := [imp 1; rem 0; imp 0; rem 0; imp 0; rem 0] in
+  let s := start_state (cfg_cap (start_cap 7)) 0 [] rst false in
+  (cap (cfg_cap (start_cap 7)), tasks s, n_drop (gh s), n_acc (gh s)) = (7, rst, 0, 6).
+Proof. vm_compute. reflexivity. Qed.
